@@ -21,6 +21,7 @@ vars == <<t, l, val, pend>>
 Apply(kind, tok, old) ==
   CASE kind = "append" -> Append(old, tok)
     [] kind = "chop"   -> IF old = <<>> THEN old ELSE SubSeq(old, 1, Len(old) - 1)
+    [] kind = "clear"  -> <<>>                                    \* the function returns nothing at all: the file becomes empty
     [] kind = "same"   -> [k \in 1..Len(old) |-> tok]
     [] kind = "grow"   -> [k \in 1..(Len(old) + 1) |-> tok]
     [] kind = "grow3"  -> [k \in 1..(Len(old) + 3) |-> tok]      \* a tail of several bytes: its write can be short
